@@ -419,6 +419,15 @@ def main():
                 for suf in suffixes:
                     longer.append(tuple(pre + x + y + suf))
                     longer.append(tuple(['('] + pre + x + y + [')'] + suf))
+    # (d) the operator-juxtaposition family: two operators side by side (every pairing of binary, minus, assignment, separator, prefix) after an operand or at
+    # the start, followed by one or two operands (the second operator could absorb them prefix-style)
+    ops2 = ['?', '-', '=', '~', '!']
+    for pre in ([], ['1'], ['a'], ['(', '1', ')'], ['1', '?', '1'], ['a', '=', '1']):
+        for o1 in ops2:
+            for o2 in ops2:
+                for tail in (['1'], ['1', '1'], ['a', '1'], ['1', 'a'], ['(', '1', ')', '1']):
+                    longer.append(tuple(pre + [o1, o2] + tail))
+                    longer.append(tuple(['('] + pre + [o1, o2] + tail + [')']))
     longer = [s for s in dict.fromkeys(longer) if (not wellformed(s)) or balanced(s)]
     seqs += longer
     random.Random(seed).shuffle(seqs)
